@@ -108,6 +108,18 @@ def material(draw, mid):
             'labels': sorted(labels)}
 
 
+# other spellings of the same density value
+SAME_VALUE = {
+    '1.0': ['1', '1.', '1.00', '1e0', '1.0+0', '10-1', '0.1e1'],
+    '2.7': ['2.70', '2.7e0', '27-1', '.27+1', '2.7d0'],
+    '0.0602': ['6.02e-2', '.0602', '6.02-2', '0.06020'],
+    '6.4e-2': ['0.064', '.064', '6.4-2', '64e-3', '6.40E-02'],
+    '10.5': ['1.05e1', '10.50', '105-1', '1.05+1'],
+    '1.2-3': ['1.2e-3', '0.0012', '.0012', '1.20-3'],
+    '.5': ['0.5', '5-1', '5.0e-1', '0.50'],
+}
+
+
 @st.composite
 def mat_case(draw, tier='quick'):
     n_mat = draw(st.integers(1, 3))
@@ -121,11 +133,22 @@ def mat_case(draw, tier='quick'):
     x = -3.0
     cid = 0
     for m in mats:
-        for _ in range(draw(st.integers(1, 2))):
+        prev = None
+        for _ in range(draw(st.integers(1, 3))):
             dens = draw(st.sampled_from(['1.0', '2.7', '0.0602', '6.4e-2',
                                          '10.5', '1.2-3', '.5']))
             atom = (not m['negative']) and (not m['mixed']) and \
                 draw(st.booleans())
+            if prev is not None and draw(st.booleans()):
+                # the density of the previous cell with this material in
+                # another spelling of the same number: one composition serves
+                # both cells or each gets its own, but each gets one
+                dens = draw(st.sampled_from(SAME_VALUE[prev[0]]))
+                atom = prev[1]
+                m['labels'] = sorted(set(m['labels'])
+                                     | {'same-density-other-spelling'})
+            else:
+                prev = (dens, atom)
             spelled = dens if atom else '-' + dens
             cid += draw(st.integers(1, 9))
             cells.append({'id': cid, 'mat': m['id'], 'rho': spelled})
